@@ -52,8 +52,15 @@ theorem nameOf_eq_of_ne {i : Nat} (h : nameOf cfg i ≠ "") :
   · simp [hv]
   · simp [hv] at h
 
+theorem ctorErrT_none_of_ctorErr {i : Nat} (h : ctorErr cfg i = none) : ctorErrT (cfg.get i) = none := by
+  unfold ctorErr at h
+  cases hc : ctorErrT (cfg.get i) with
+  | none => rfl
+  | some e => simp [hc] at h
+
 theorem ctorErr_none_name {i : Nat} (h : ctorErr cfg i = none) : nameOf cfg i ≠ "" := by
-  unfold ctorErr ctorErrT at h
+  have h := ctorErrT_none_of_ctorErr cfg h
+  unfold ctorErrT at h
   by_cases hv : validName (cfg.get i).name = true
   · unfold nameOf; simp only [hv, if_true]; exact validName_ne_empty hv
   · simp [hv] at h
